@@ -606,9 +606,27 @@ func c13SchemasRevisited(c *Ctx) {
 	}
 }
 
+// c13KeysNamedLikeFunctions: keys spelled like the functions of the library (Count, Index, First, Sum ...) are keys: declared ones have
+// their kind, undeclared ones are accepted as Any exactly where any other undeclared key is (an open struct, `_`), rejected elsewhere
+func c13KeysNamedLikeFunctions(c *Ctx) {
+	fld := func(n string, t *CTy) *CField { return &CField{N: n, M: "reg", Ty: t} }
+	prim := func(t string) *CTy { return &CTy{T: t} }
+	open := &CTy{T: "struct", Open: 1, F: []*CField{fld("a", prim("int"))}}
+	stats := &CTy{T: "struct", F: []*CField{fld("Index", prim("top")), fld("Sum", prim("number")), fld("Count", prim("string")), fld("plain", prim("top"))}}
+	root := &CTy{T: "struct", F: []*CField{fld("payload", open), fld("stats", stats), fld("extra", prim("top")), fld("input", &CTy{T: "struct", F: []*CField{fld("name", prim("string"))}})}}
+	txt := cueSchemaText(&cueGen{}, root)
+	for _, fn := range []string{"Count", "Index", "First", "Sum", "Last", "Any", "Equal", "Select", "AsJSON", "IsNull", "other"} {
+		for _, p := range [][]string{{"payload", fn}, {"stats", fn}, {"extra", fn}, {"payload", fn, "deeper"}, {"extra", "x", fn}, {"input", fn}} {
+			expect, unspec := specWalk(root, p)
+			c.cueDo(cueCase{S: root, P: p, CP: "", Dom: !unspec, Q: "$." + strings.Join(p, "."), Txt: txt}, "keys-named-like-functions", expect, unspec)
+		}
+	}
+}
+
 func genC13(c *Ctx) {
 	c13KeysBelowTheRootNamedLikeSteps(c)
 	c13SchemasRevisited(c)
+	c13KeysNamedLikeFunctions(c)
 	c.Rule = "random CUE schemas from a type-tree generator (closed and open structs to depth 4; fields string/bytes/bool/int/float/number/_; lists of those and of structs; regular, optional ?, required !, quoted, hidden _x and definition-typed fields), each rendered as CUE text; per schema every declared key path (sampled when there are many) plus one-key mutations (a key replaced by an undeclared one, an undeclared or misplaced key appended), validated by the real CueValidate with and without a current step; oracle: accept with the declared (type, Single|Array) iff every key names a declared field, reject otherwise (any message), open structs and _ accept any further key as Any; a key after a list of lists is rejected; keys applied to the ELEMENTS of a list of structs or of `_` (after First / Last / Index(0), and as the key of a filter condition; open lists `[...T]` and closed lists `[T]`): a declared element field is accepted with its own kind, an undeclared one rejected, open element structs and `_` elements accept any key as Any; unspecified by the property and excluded from the oracle: hidden fields marked ?/!, keys differing only in case, the kind reported for a list of lists. distinct = distinct (class, path length, node kinds along the path, verdict); non-trivial = verdict is not the most common one"
 	n := c.scale(700, 7000)
 	for i := 0; i < n; i++ {
